@@ -61,7 +61,7 @@ PROPS = {
                 rule="per basis position and per window position: window values {0,1,2^(w-1)-1,2^(w-1),2^(w-1)+1,2^w-2,2^w-1} x carry-in {0,1}; all-ones carry chains; r-1, r-2, powers of two; single hot coefficient at the basis positions; short vectors; dense random; linearity/update triples; audit of precomputed table entries against (j+1)2^(wk)G_i."),
     "C06": dict(ties=['Formulas', 'SqrtChain', 'GoIpa.Props.C06Exact'], level="proof",
                 rule="byte strings of every length 0..70 (compressed) / 0..130 (uncompressed); random x classified independently (valid / on-curve non-subgroup / off-curve) each with its x+p alias and -x; uncompressed: both signs of y, x+p, y+p, wrong y, trailing byte; boundary values 0,1,p-1,p,p+1,2^256-1."),
-    "C07": dict(ties=['Formulas'], level="proof",
+    "C07": dict(ties=['Formulas', 'GoIpa.Props.C07Concrete'], level="proof",
                 rule="elements reached by random histories (Add, Sub, Double, Neg, ScalarMul, AddMixed, Set, Normalize, MSM both engines, decode) in representations Z=1 / rescaled / sign-flipped, including the all-zero value; Bytes, Equal matrix over all pairs, decode(Bytes)."),
     "C08": dict(ties=['Formulas'], level="proof",
                 rule="random group histories plus explicit law instances ((s+t)P, s(P+Q), 0*P, (r-1)P+P, P-P, P+O, -P) with special scalars; every operation also executed with the receiver aliasing each operand; all representations; identity-class operands of ScalarMul."),
@@ -69,7 +69,7 @@ PROPS = {
                 rule="n crossing every window-size threshold up to 4097 (thorough 32768), NbTasks in {0,1,2,3,5,8,16,17,64,1024}, Montgomery and regular scalars, >=10% small scalars, duplicates / opposite points / identity, zero and r-1 scalars; every implemented window c in {4..16,20,21,22} through the internal entry point with boundary digit patterns, with and without first-chunk split."),
     "C10": dict(ties=['Consts'], level="proof",
                 rule="honest 576-byte proofs, one byte short/long, lengths 0..1152, field-wise boundary values (p-1,p,p+1,0,2^256-1, non-subgroup, off-curve, x+p; r-1,r,r+1,s+r) at each of the 18 positions, random bit flips; reader scripts: one shot, 1 byte at a time, halves, data+EOF together, odd chunkings, I/O failure at offset k; writer failing at each Write call."),
-    "C11": dict(ties=['Formulas'], level="proof", race=True, modes=[{"name": "default"}, {"name": "conc16", "args": ["-conc", "16"], "workers": 1, "filter": "^batch ", "env": {"VERIF_BATCH_REPEAT": "40"}}],
+    "C11": dict(ties=['Formulas', 'GoIpa.Props.C07Concrete'], level="proof", race=True, modes=[{"name": "default"}, {"name": "conc16", "args": ["-conc", "16"], "workers": 1, "filter": "^batch ", "env": {"VERIF_BATCH_REPEAT": "40"}}],
                 rule="elements whose x/y is crafted (by solving the curve equation) to lie within 3 of k*r or to share the top limb of k*r (k=1..3), near 0 and near p; as C07: map-to-scalar-field of every element of random histories in all representations, single and batch variants, against the model's x/y computed on its own representation."),
     "C12": dict(ties=['Execute'], level="other", race=True, workers=1, model_workers=16,
                 modes=[{"name": "conc8-race", "args": ["-conc", "8"]},
